@@ -307,6 +307,7 @@ type Case struct {
 	Compete bool            `json:"compete"`
 	Mixed   bool            `json:"mixed"`
 	NotAmp  bool            `json:"notamp"`
+	NotAmpC bool            `json:"notampc"` // `&` inside :not() under a parent that is complex after substitution
 
 	Family string `json:"-"`
 	Name   string `json:"-"`
